@@ -247,6 +247,11 @@ SHARED_ACTION = ("common", [("?x", "t1")], ["and", ["p", "?x"]], ["and", ["not",
 
 
 def own_action(i):
+    if i % 2:
+        # parameters of equal type that are not adjacent, and a subtype in between (their ORDER is part of the action)
+        return (f"act{i}", [("?x", "t1"), ("?u", "t2"), ("?y", "t1"), ("?v", "t3")],
+                ["and", ["q", "?x", "?y"], ["s", "?u"], ["p", "?v"], [">=", ["f", "?x"], str(i)]],
+                ["and", ["not", ["q", "?x", "?y"]], ["q", "?v", "?x"], ["increase", ["f", "?y"], str(i + 1)]])
     return (f"act{i}", [("?x", "t1"), ("?y", "t1")], ["and", ["q", "?x", "?y"], [">=", ["f", "?x"], str(i)]],
             ["and", ["not", ["q", "?x", "?y"]], ["increase", ["f", "?y"], str(i + 1)]])
 
